@@ -32,6 +32,13 @@ LEVEL_NOTE = ('kernel strength; of stage 3, renames and the per-column flushes o
 PROOF_TIMEOUT = 900
 
 
+def regenerate(ctx):
+  """coq/gen/DocActions_gen.v from /repo: the effect programs of docactions.py and the skeletons of the K1 glue; the pinned
+  rest (value computations of docactions.py, Engine._recompute_step) is compared by normalised AST hash.  Fail closed."""
+  from harness import da2v
+  da2v.regenerate(ctx)
+
+
 def correspond(ctx):
   K = _c01._k1()
   res = K.traced_run(ctx, *_c01.sizes(ctx))
